@@ -13,13 +13,13 @@ while [ $# -gt 0 ]; do
 done
 S=${MUTANT_SCRATCH:-/tmp/mut-$ID-$$}
 mkdir -p "$S"
-rsync -a --delete --exclude target --exclude '.verif-*' /repo/ "$S/"
+rsync -a --delete --exclude 'target*' --exclude '.verif-*' /repo/ "$S/"
 trap 'if [ -z "${MUTANT_KEEP:-}" ]; then rm -rf "$S"; fi' EXIT
 for P in "${PATCHES[@]}"; do
   P=$(readlink -f "$P")
   git -C "$S" checkout -q -- . 2>/dev/null
   if ! git -C "$S" apply "$P"; then echo "MUTANT $(basename "$P"): patch does not apply"; continue; fi
-  if (cd "$S" && cargo test --workspace --no-fail-fast --offline >"$S/.suite.log" 2>&1); then SUITE=green; else SUITE=RED; fi
+  if (cd "$S" && timeout 900 cargo test --workspace --no-fail-fast --offline >"$S/.suite.log" 2>&1); then SUITE=green; else SUITE=RED; fi
   OUT=$(cd "$ROOT" && VERIF_REPO="$S" ./check "$ID" "$TIER" 2>&1); RC=$?
   NV=$(echo "$OUT" | grep -c '^VIOLATION')
   SIGS=$(echo "$OUT" | grep -E '^  \[' | sed -E 's/^  \[[^]]*\] ([^ ]+) ::.*/\1/' | sort -u | head -5 | tr '\n' ' ')
